@@ -11,13 +11,19 @@ spec = importlib.util.spec_from_file_location('c09proofs', os.path.join(here, '.
 c09 = importlib.util.module_from_spec(spec)
 spec.loader.exec_module(c09)
 NEED_OPTIONS = True
-PROOFS = [fileio_proofs.bcm_proof(), fileio_proofs.dsf_proof(), end_proof.end_proof()] + [p for p in c09.PROOFS if p.name == 'write_byte_bout']
+sys.path.insert(0, os.path.join(here, '..', '..', 'tools'))
+from prover import Proof  # noqa: E402
+_MT = Proof('main_tail', impl='contracts/C12/maintail.impl.cpp', spec='contracts/C12/maintail.spec.c', harness='h_main_tail', plain=True, no_contract=True, canaries=2,
+            rules={}, expect=['postcondition: main exit status'], functions=['uncrustify.cpp:main (tail fragment: exit status)'], extern_c=False,
+            mutants=[('always_success', r'return\(EXIT_FAILURE\);', 'return(EXIT_SUCCESS);', 'postcondition'),
+                     ('fails_without_check', r'if \(  cpd.do_check\n      && cpd.check_fail_cnt != 0\)', 'if (cpd.check_fail_cnt != 0)', 'postcondition')])
+PROOFS = [fileio_proofs.bcm_proof(), fileio_proofs.dsf_proof(), end_proof.end_proof(), _MT] + [p for p in c09.PROOFS if p.name == 'write_byte_bout']
 EXPLANATION = ('Kernel of C12: bout_content_matches() is true exactly when the captured output equals the input byte for byte (both directions, arbitrary '
                'index) and reports PASS/FAIL consistently; write_byte() appends to cpd.bout and writes nothing else when cpd.fout is NULL; do_source_file() '
                'performs no file-system modifying call under --check, and none under --if-changed when the comparison says unchanged.')
-K = ['K3 uncrustify_file: check_fail_cnt incremented exactly when --check and the buffers differ', 'K1 bout_content_matches: true <=> byte-equal; one PASS or FAIL line consistent with the result', 'K2 write_byte capture branch', 'K5 uncrustify_end: the capture buffer cpd.bout is emptied after every file (a file\'s comparison never sees bytes of the previous file)',
+K = ['K3 uncrustify_file: check_fail_cnt incremented exactly when --check and the buffers differ', 'K1 bout_content_matches: true <=> byte-equal; one PASS or FAIL line consistent with the result', 'K2 write_byte capture branch', 'K6 main() (tail): the exit status is non-zero exactly when --check is on and check_fail_cnt != 0', 'K5 uncrustify_end: the capture buffer cpd.bout is emptied after every file (a file\'s comparison never sees bytes of the previous file)',
      'K4 do_source_file: --check => zero fs writes; --if-changed && unchanged => zero fs writes (early return)']
-G = ['main() turns check_fail_cnt into the exit status and rejects --check with output options / --if-changed (call-site precondition of do_source_file_contract; main is 740 lines of argument handling, not sliceable)',
+G = ['main() rejects --check with output options / --if-changed (call-site precondition of do_source_file_contract; the argument handling of main is not under contract)',
      'cpd.bout really holds what output_text wrote: every byte goes through write_byte (C09 static fact)',
      'files are smaller than 2 GiB (int loop index in bout_content_matches)',
      '--if-changed writes exactly *cpd.bout: the fputc loop in do_source_file is covered for frame/termination only, not for content']
